@@ -434,17 +434,28 @@ def run(repo, rep, tier):
         rep.ob("C09.R3", f, f"CellRange.{fn}: numeric rows printed 1-based", ok, "", key=f"C09.R3@{fn}:one-based")
 
     # ---- R4 freshness / invalidation of naming data
-    itd = repo.func("xrefs.py", "CellRange._initialize_table_data")
-    src = None
-    for n in body_walk(itd):
-        if isinstance(n, ast.Assign) and U(n.targets[0]) == "self._table_names":
-            src = U(n.value)
-    ok = src == "self.model.table_names()"
-    rep.ob("C09.R4", itd, f"CellRange table-name uniqueness computed from `{src}`", ok,
-           "" if ok else "table names come from a cache that renames do not invalidate: after a rename the printed qualification can match another table", key="C09.R4@CellRange:table-names")
-    s = U(itd).replace(" ", "")
-    ok = "self.table_name_unique={name:self._table_names.count(name)==1fornameinself._table_names}" in s
-    rep.ob("C09.R4", itd, "a table name is unique iff it occurs exactly once in the document", ok, "", key="C09.R4@CellRange:unique")
+    cr_cls = repo.cls("xrefs.py", "CellRange")
+    if repo.has_func("xrefs.py", "CellRange._initialize_table_data"):
+        itd = repo.func("xrefs.py", "CellRange._initialize_table_data")
+        src = None
+        for n in body_walk(itd):
+            if isinstance(n, ast.Assign) and U(n.targets[0]) == "self._table_names":
+                src = U(n.value)
+        ok = src == "self.model.table_names()"
+        rep.ob("C09.R4", itd, f"CellRange table-name uniqueness computed from `{src}`", ok,
+               "" if ok else "table names come from a cache that renames do not invalidate: after a rename the printed qualification can match another table", key="C09.R4@CellRange:table-names")
+        s = U(itd).replace(" ", "")
+        ok = "self.table_name_unique={name:self._table_names.count(name)==1fornameinself._table_names}" in s
+        rep.ob("C09.R4", itd, "a table name is unique iff it occurs exactly once in the document", ok, "", key="C09.R4@CellRange:unique")
+    else:
+        # the per-reference recomputation is gone: whatever replaces it must still be derived from the model's current
+        # table names when the reference is printed
+        uses = [n for n in ast.walk(cr_cls) if isinstance(n, ast.Call) and U(n.func) == "self.model.table_names"]
+        rep.ob("C09.R4", cr_cls, "CellRange table-name uniqueness computed from `self.model.table_names()` for every reference", bool(uses),
+               "" if uses else "the table names are no longer read from the model when a reference is printed; a map kept elsewhere is not refreshed by a rename, so after one the printed "
+               "qualification can denote another table", key="C09.R4@CellRange:table-names")
+        rep.ob("C09.R4", cr_cls, "a table name is unique iff it occurs exactly once in the document", False,
+               "the uniqueness table built from the current names was removed", key="C09.R4@CellRange:unique")
     w = repo.func("document.py", "Table.write")
     g = cfgmod.build(w)
     md = [n for n in body_walk(w) if isinstance(n, ast.Call) and last_attr(n.func) == "mark_dirty"]
